@@ -107,6 +107,76 @@ def frame_monitor(lb: Loopback, m, expect_to: int) -> tuple[str | None, bytes | 
     return None, frame
 
 
+FLT = 8
+
+
+def float_tie(ck, dist) -> None:
+    """The binary64 model of the utils.py lines (coq/base/Flt.v) against the real functions, on every value the
+    theorems quantify over: the decoded float (bit for bit), the re-encoded integer, and what the encoders make
+    of the float nearest to k/10 (k/10.0, also what round(x, 1) returns)."""
+    import math
+    from pyairtouch.at4.comms import utils as u4
+    from pyairtouch.at5.comms import utils as u5
+
+    def guarded(f, x):
+        try:
+            return f(x)
+        except (ValueError, OverflowError):
+            return -1
+
+    plan = []            # (which, argument, implementation float, implementation re-encoded)
+    for v in range(2048):
+        raw = v << 5
+        f = u4.decode_temperature(raw)
+        plan.append((1, raw, f, guarded(u4.encode_temperature, f)))
+    for r in range(256):
+        f = u5.decode_set_point(r)
+        plan.append((2, r, f, guarded(u5.encode_set_point, f)))
+    for r in range(2048):
+        f = u5.decode_temperature(r)
+        plan.append((3, r, f, guarded(u5.encode_temperature, f)))
+    for k in range(100, 356):
+        plan.append((4, k, k / 10.0, guarded(u5.encode_set_point, k / 10.0)))
+    for k in range(-1500, 1548):
+        plan.append((5, k, k / 10.0, guarded(u5.encode_temperature, k / 10.0)))
+    for k in range(-500, 1548):
+        plan.append((6, k, k / 10.0, guarded(u4.encode_temperature, k / 10.0)))
+    outs = common.run_model([[FLT, w, a] for w, a, _, _ in plan])
+    for (w, a, f, e), o in zip(plan, outs):
+        ck.count()
+        dist[f"float_line_{w}"] += 1
+        if len(o) != 5:
+            mf, me = None, None
+        else:
+            cls, sg, m, ex, me = o
+            mf = (math.copysign(0.0, -1.0 if sg else 1.0) if cls == 0 else
+                  (math.ldexp(m, ex) * (-1 if sg else 1)) if cls == 1 else float("nan"))
+        same = mf is not None and (mf == f and math.copysign(1.0, mf) == math.copysign(1.0, f)) and me == e
+        if not same:
+            names = {1: "at4 decode_temperature/encode_temperature", 2: "at5 decode_set_point/encode_set_point",
+                     3: "at5 decode_temperature/encode_temperature", 4: "at5 encode_set_point(k/10.0)",
+                     5: "at5 encode_temperature(k/10.0)", 6: "at4 encode_temperature(k/10.0)"}
+            ok_roundtrip = (w in (1, 2, 3) and e == a) or (w == 4 and e == a - 100) or (w == 5 and e == a + 500) \
+                or (w == 6 and e == ((a + 500) << 5) & 0xFFE0)
+            ck.violation("floating-point temperature arithmetic differs from its binary64 model",
+                         {"kind": "float", "line": names[w], "argument": a, "implementation_float": f.hex(),
+                          "implementation_integer": e, "model_float": None if mf is None else float(mf).hex(),
+                          "model_integer": me, "round_trip_holds_on_implementation": ok_roundtrip,
+                          "theorems": "C03_float_* (coq/props/C03.v)"},
+                         found_input=not ok_roundtrip)
+            return
+    # round(x, 1) returns the float nearest to a whole number of tenths (what f_tenths models)
+    for i in range(-2000, 4000):
+        x = i / 20.0 + (1e-9 if i % 3 == 0 else 0.0)
+        y = round(x, 1)
+        k = round(y * 10)
+        ck.count()
+        if y != k / 10.0:
+            ck.violation("round(x, 1) is not the float nearest to a whole number of tenths",
+                         {"kind": "float", "x": x.hex(), "round": y.hex(), "tenths": k}, found_input=False)
+            return
+
+
 def check_c03(tier: str) -> int:
     ck = common.Check("C03", tier)
     ck.rule = ("structured random messages of all 18+18 classes (boundary values, every enum member, multi-byte UTF-8 "
@@ -114,10 +184,13 @@ def check_c03(tier: str) -> int:
                "model vs. implementation on size(), encode() bytes, decode() result/exception; for every message in the "
                "theorems' domain (extracted dom4/dom5) the implementation must satisfy size == produced == announced and "
                "decode(encode(m)) == m, and a sample of each class goes through the real socket send path and back "
-               "through the real receive path; non-trivial/distinct = distinct in-domain messages")
+               "through the real receive path; the floating-point lines of utils.py are compared bit for bit with their binary64 "
+               "model on every field value (9.7k values); non-trivial/distinct = distinct in-domain messages")
     ck.assumptions = [
         "a Python str is identified with its UTF-8 bytes; temperatures and set-points with tenths of a degree (floats k/10)",
         "frame-level theorems need the payload to fit the 16-bit length field (fits4/fits5, < 65 524 bytes)",
+        "CPython float arithmetic is IEEE-754 binary64 with round-to-nearest-even (what Coq.Floats.SpecFloat defines); "
+        "checked bit for bit on every field value against the extracted model on each run",
     ]
     rng = random.Random(ck.seed * 7919 + 3)
     with common.Lock():
@@ -191,6 +264,7 @@ def check_c03(tier: str) -> int:
                     corr_bad.append((gen, (ty, p.hex()), None, mis, None))
         finally:
             lb.close()
+    float_tie(ck, dist)
     # a broken correspondence without a failing input is still reported
     for gen, m, fl, mis, bad in corr_bad[:6]:
         if bad:
